@@ -21,6 +21,8 @@ def gen(ch):
     subs = []
     for i in range(k):
         P = dlgen.generate(ch, dlgen.Feat(min_numeric_domain=True, max_groups=4, adts=True, ranges=True, disjunctions=True, multihead=True))
+        if ch.bool(0.5):
+            dlgen.add_agg_only(P, ch)     # rules whose outermost operation is an (indexed, possibly parallel) aggregate
         for n in P.order:
             rel = P.rels[n]
             q = ch.weighted([(5, ""), (2, "btree"), (3, "brie")])
